@@ -2509,9 +2509,16 @@ package gomatrixserverlib
 //@   property C18:safety
 //@   inline
 
+// The verifier of pseudo-ID rooms: the "server name" of a request is the sender's public key; a request is reported
+// as verified (nil error) only when that very key verified the message in this iteration.
 //@ func (JSONVerifierSelf).VerifyJSONs
-//@   property C18:safety
-//@   inline
+//@   property C06, C12, C18:safety
+//@   results results, err
+//@   ensures one-result-per-request: err == nil && len(results) == len(requests)
+//@   calls VerifyJSON@root the-senders-own-key-over-the-request-message: 0 <= idx(1) && idx(1) < len(requests) && signingName == string(requests[idx(1)].ServerName) && keyID == "ed25519:1" && message == requests[idx(1)].Message && publicKey == key
+//@   loop 1: invariant 0 <= idx(1) && idx(1) <= len(requests) && len(results) == len(requests)
+//@   loop 1: step verified-only-by-a-successful-check: results[old(idx(1))].Error == nil ==> (ncalls(VerifyJSON) == old(ncalls(VerifyJSON)) + 1 && ret(VerifyJSON) == nil)
+//@   loop 1: step earlier-verdicts-stay: forall j int :: 0 <= j && j < old(idx(1)) ==> results[j].Error == old(results[j].Error)
 
 //@ func (MissingAuthEventError).Error
 //@   property C18:safety
@@ -2520,6 +2527,27 @@ package gomatrixserverlib
 //@ func (PerspectiveKeyFetcher).FetcherName
 //@   property C18:safety
 //@   inline
+
+// AuthEventReferences (what EventBuilder.AddAuthEvents and PerformInvite put under auth_events): every needed event
+// the provider has is referenced - create, join rules, power levels, the member event of EVERY needed user and the
+// third-party-invite event of every needed token; a provider error is passed on.
+//@ func (StateNeeded).AuthEventReferences
+//@   property C09, C18:safety
+//@   requires provider != nil
+//@   ensures create-referenced: (err == nil && s.Create && provider.Create()[1] == nil && provider.Create()[0] != nil) ==> inStrs(refs, provider.Create()[0].EventID())
+//@   ensures join-rules-referenced: (err == nil && s.JoinRules && provider.JoinRules()[1] == nil && provider.JoinRules()[0] != nil) ==> inStrs(refs, provider.JoinRules()[0].EventID())
+//@   ensures power-levels-referenced: (err == nil && s.PowerLevels && provider.PowerLevels()[1] == nil && provider.PowerLevels()[0] != nil) ==> inStrs(refs, provider.PowerLevels()[0].EventID())
+//@   ensures every-needed-member-referenced: err == nil ==> (forall j int :: (0 <= j && j < len(s.Member) && provider.Member(s.Member[j])[0] != nil) ==> inStrs(refs, provider.Member(s.Member[j])[0].EventID()))
+//@   ensures every-needed-token-referenced: err == nil ==> (forall j int :: (0 <= j && j < len(s.ThirdPartyInvite) && provider.ThirdPartyInvite(s.ThirdPartyInvite[j])[0] != nil) ==> inStrs(refs, provider.ThirdPartyInvite(s.ThirdPartyInvite[j])[0].EventID()))
+//@   ensures provider-errors-are-passed-on: (s.Create && provider.Create()[1] != nil) ==> err != nil
+//@   loop 1: invariant 0 <= idx(1) && idx(1) <= len(s.Member)
+//@   loop 1: invariant fixed-ones-stay: ((s.Create && provider.Create()[1] == nil && provider.Create()[0] != nil) ==> inStrs(refs, provider.Create()[0].EventID())) && ((s.JoinRules && provider.JoinRules()[1] == nil && provider.JoinRules()[0] != nil) ==> inStrs(refs, provider.JoinRules()[0].EventID())) && ((s.PowerLevels && provider.PowerLevels()[1] == nil && provider.PowerLevels()[0] != nil) ==> inStrs(refs, provider.PowerLevels()[0].EventID()))
+//@   loop 1: invariant members-so-far: forall j int :: (0 <= j && j < idx(1) && provider.Member(s.Member[j])[0] != nil) ==> inStrs(refs, provider.Member(s.Member[j])[0].EventID())
+//@   loop 2: invariant 0 <= idx(2) && idx(2) <= len(s.ThirdPartyInvite)
+//@   loop 2: invariant fixed-ones-stay: ((s.Create && provider.Create()[1] == nil && provider.Create()[0] != nil) ==> inStrs(refs, provider.Create()[0].EventID())) && ((s.JoinRules && provider.JoinRules()[1] == nil && provider.JoinRules()[0] != nil) ==> inStrs(refs, provider.JoinRules()[0].EventID())) && ((s.PowerLevels && provider.PowerLevels()[1] == nil && provider.PowerLevels()[0] != nil) ==> inStrs(refs, provider.PowerLevels()[0].EventID()))
+//@   loop 2: invariant members-stay: forall j int :: (0 <= j && j < len(s.Member) && provider.Member(s.Member[j])[0] != nil) ==> inStrs(refs, provider.Member(s.Member[j])[0].EventID())
+//@   loop 2: invariant tokens-so-far: forall j int :: (0 <= j && j < idx(2) && provider.ThirdPartyInvite(s.ThirdPartyInvite[j])[0] != nil) ==> inStrs(refs, provider.ThirdPartyInvite(s.ThirdPartyInvite[j])[0].EventID())
+//@   assigns nothing
 
 //@ func (StateNeeded).Tuples
 //@   property C18:safety
